@@ -36,6 +36,10 @@ func replPool() []string {
 		"/* open",
 		model.KwFun + " f() { " + model.KwReturn + " 7; } " + model.KwPrint + " f();",
 		model.BiAbs + "();",
+		model.BiLen + " = 0;",                                        // assignment to a built-in name (allowed by the grammar)
+		model.BiLen + " = 0; " + model.BiLen + "([1]);",              // ... followed by a failing use in the same line
+		model.BiMax + " = nil; " + model.KwPrint + " " + model.BiMax + ";", // ... and a print of the rebound name
+		model.KwPrint + " " + model.BiMax + "(2, 7);",
 		"# @ # @ # @ # @ # @ # @ # @", // a line with many lexical errors
 		"1 +; 2 +; ) ) ) ; ; ;",        // a line with a syntax error followed by more garbage
 	}
@@ -263,9 +267,9 @@ func lineClass(pool []string, seq []int, k int) string {
 		return "start"
 	}
 	switch i := seq[k-1]; {
-	case i >= 6 && i <= 9, i == 19, i >= 22:
+	case i >= 6 && i <= 9, i == 19, i >= 26:
 		return "static-error"
-	case i >= 10 && i <= 13, i == 21:
+	case i >= 10 && i <= 13, i == 21, i == 23:
 		return "runtime-error"
 	}
 	return "valid-line"
